@@ -25,6 +25,7 @@ func vC18SameSite(k int) (string, http.SameSite) {
 	return "none", http.SameSiteNoneMode
 }
 
+// MakeCookieFromOptions: every attribute as configured; Domain = longest configured domain matching the request host, else the shortest, also for deletions; X-Forwarded-Host ignored unless reverse-proxy
 // verif: unwind=5 strlen=10 also=C11,C16
 func vh_C18_make() {
 	nd := ndChoice("ndomains", 4)
